@@ -4,6 +4,6 @@ import GopModel.Driver.ClassFile
 import GopModel.Driver.GopStyle
 open GopModel.Driver
 def main : IO Unit := runDriver (dispatchWith [
-  ("c10enc", handleC10Enc), ("c10dec", handleC10Dec), ("c10disp", handleC10Disp),
+  ("c10enc", handleC10Enc), ("c10dec", handleC10Dec), ("c10disp", handleC10Disp), ("c10lam", handleC10Lam),
   ("c11type", handleC11Type),
   ("c25scope", handleC25Scope), ("c25lambda", handleC25Lambda), ("c25lower", handleC25Lower)])
